@@ -7,8 +7,16 @@ From KV Require Import Lts ConnServer ConnServerProofs Server.
 Import ListNotations.
 
 (** * Facts about single connection steps, checked on every reachable control state *)
+(** labels of steps taken by handleConn *)
+Definition h_label (l : label) : bool :=
+  match l with
+  | LHStart | LHEnd | LHookOk | LHookFail | LTermHook | LWgDone | LTlsOk | LTlsFail
+  | LHandoff | LEnqueue | LMkErrResp | LHDrop => true
+  | _ => false
+  end.
 Definition conn_step_fact (c : cstate) (lc : label * cstate) : bool :=
   let (l, c') := lc in
+  implb (h_done c) (negb (h_label l)) &&
   if conn_label_ok l then
     Bool.eqb (rctx c') (rctx c) && Bool.eqb (root c') (root c)
     && match l with
@@ -35,6 +43,7 @@ Proof.
   pose proof conn_step_cert_ok as Hc. unfold conn_step_cert in Hc. rewrite forallb_forall in Hc.
   specialize (Hc c Hr). apply andb_true_iff in Hc. destruct Hc as [_ Hc].
   rewrite forallb_forall in Hc. specialize (Hc (l, c') Hin). unfold conn_step_fact in Hc.
+  apply andb_true_iff in Hc. destruct Hc as [_ Hc].
   rewrite Hok in Hc. apply andb_true_iff in Hc. destruct Hc as [Hc H3]. apply andb_true_iff in Hc. destruct Hc as [H1 H2].
   apply eqb_prop in H1. apply eqb_prop in H2. clear Hr.
   split; [exact H1|]. split; [exact H2|]. split.
@@ -51,6 +60,18 @@ Proof.
   specialize (Hc c Hr). apply andb_true_iff in Hc. destruct Hc as [Hc _].
   unfold conn_state_fact in Hc. rewrite Hd in Hc. cbn [implb] in Hc. apply andb_true_iff in Hc. destruct Hc as [H1 H2].
   apply negb_true_iff in H1. split; [exact H1|]. intros E. rewrite E in H2. exact H2.
+Qed.
+
+Lemma conn_done_no_h_label tls c l c' :
+  reachable (cstep cfg_repo) (cinit tls) c -> In (l, c') (cstep_lbl cfg_repo c) -> h_done c = true ->
+  h_label l = false.
+Proof.
+  intros Hr Hin Hd. apply reachable_in_Rset in Hr.
+  pose proof conn_step_cert_ok as Hc. unfold conn_step_cert in Hc. rewrite forallb_forall in Hc.
+  specialize (Hc c Hr). apply andb_true_iff in Hc. destruct Hc as [_ Hc].
+  rewrite forallb_forall in Hc. specialize (Hc (l, c') Hin). unfold conn_step_fact in Hc.
+  apply andb_true_iff in Hc. destruct Hc as [Hc _]. rewrite Hd in Hc. cbn [implb] in Hc.
+  apply negb_true_iff in Hc. exact Hc.
 Qed.
 
 (** the two context events are steps of the connection model *)
@@ -307,4 +328,257 @@ Proof.
     clear Hs. subst s'. constructor; cbn [with_conns sv sd tm wg lis shut g_rctx g_root conns s_panic]; try solve [auto]; try lia.
     all: first [ rewrite HL'; exact v_wg0
                | intros D; destruct (v_drained0 D) as [D2 D3]; split; [lia|exact D3] ].
+Qed.
+
+Lemma sstep_labelled C s s' : In s' (sstep C s) -> exists l, In (l, s') (sstep_lbl C s).
+Proof. unfold sstep. intros H. apply in_map_iff in H. destruct H as [[l x] [<- H]]. exists l. exact H. Qed.
+
+Theorem sinv_reachable : forall s, reachable (sstep scfg_repo) sinit s -> SInv s.
+Proof.
+  intros s H. induction H as [|s t Hs IH Ht]; [apply sinv_init|].
+  destruct (sstep_labelled _ _ _ Ht) as [l Hl]. eapply sinv_step; eauto.
+Qed.
+
+(** * Theorems *)
+
+(** every connection of the server is, at every moment, in a state the single-connection model
+    can reach: all theorems of ConnServerProofs.v hold for each of any number of concurrent
+    connections *)
+Theorem server_conns_are_connections : forall s c,
+  reachable (sstep scfg_repo) sinit s -> In c (conns s) ->
+  exists tls, reachable (cstep cfg_repo) (cinit tls) c.
+Proof. intros s c H. apply (v_reach _ (sinv_reachable s H)). Qed.
+
+Theorem server_no_panic : forall s,
+  reachable (sstep scfg_repo) sinit s ->
+  s_panic s = false /\ forall c, In c (conns s) -> panicked c = false.
+Proof.
+  intros s H. pose proof (sinv_reachable s H) as []. split; [assumption|].
+  intros c Hc. destruct (v_reach0 c Hc) as [tls Hr]. exact (conn_no_panic tls c Hr).
+Qed.
+
+Lemma nth_error_upd_other {A} (l : list A) i j x : i <> j -> nth_error (upd_nth i x l) j = nth_error l j.
+Proof.
+  revert i j. induction l as [|a l IH]; intros i j Hne; [destruct i; reflexivity|].
+  destruct i, j; cbn; try reflexivity; [contradiction Hne; reflexivity | apply IH; lia].
+Qed.
+
+(** frame: a step of connection [i] changes neither another connection nor the accept loop,
+    Shutdown, the timer, the listener or the contexts *)
+Theorem product_frame : forall s i lb s',
+  In (SL_Conn i lb, s') (sstep_lbl scfg_repo s) ->
+  (forall j, j <> i -> nth_error (conns s') j = nth_error (conns s) j) /\
+  sv s' = sv s /\ sd s' = sd s /\ tm s' = tm s /\ lis s' = lis s /\ shut s' = shut s /\
+  g_rctx s' = g_rctx s /\ g_root s' = g_root s.
+Proof.
+  intros s i lb s' Hin. unfold sstep_lbl in Hin. destruct (s_panic s); [destruct Hin|].
+  apply in_app_or in Hin. destruct Hin as [Hin|Hin].
+  { exfalso. unfold serve_steps in Hin. destruct (sv s); try destruct (lis s); try destruct (guard_add scfg_repo && shut s);
+      cbn in Hin; repeat (destruct Hin as [Hin|Hin]; try discriminate Hin); try destruct Hin. }
+  apply in_app_or in Hin. destruct Hin as [Hin|Hin].
+  { exfalso. unfold shutdown_steps in Hin. destruct (sd s); try destruct (wg s); cbn in Hin;
+      repeat (destruct Hin as [Hin|Hin]; try discriminate Hin); try destruct Hin. }
+  apply in_app_or in Hin. destruct Hin as [Hin|Hin].
+  { exfalso. unfold timer_steps in Hin. destruct (tm s); cbn in Hin;
+      repeat (destruct Hin as [Hin|Hin]; try discriminate Hin); try destruct Hin. }
+  destruct (conn_steps_from_In scfg_repo s _ _ _ Hin) as [k [c [l0 [c' [Hn [Hc [Hok [Hf Hs]]]]]]]].
+  cbn [fst snd plus] in Hf, Hs. injection Hf as -> ->.
+  assert (E : conns s' = upd_nth k c' (conns s) /\ sv s' = sv s /\ sd s' = sd s /\ tm s' = tm s /\ lis s' = lis s /\
+              shut s' = shut s /\ g_rctx s' = g_rctx s /\ g_root s' = g_root s).
+  { rewrite Hs. destruct l0; try (repeat split; reflexivity). destruct (wg s); repeat split; reflexivity. }
+  destruct E as [E0 E]. split; [|exact E].
+  intros j Hj. rewrite E0. apply nth_error_upd_other. congruence.
+Qed.
+
+(** the accept loop never waits for a connection: while it has not returned it always has a step
+    of its own, whatever the connections do *)
+Theorem serve_live : forall s,
+  serve_ended s = false -> serve_steps scfg_repo s <> [].
+Proof.
+  intros s H. unfold serve_steps. unfold serve_ended in H.
+  destruct (sv s); try discriminate H; try destruct (lis s); try destruct (guard_add scfg_repo && shut s); discriminate.
+Qed.
+
+(** ... and it leaves the loop only through a failing Accept: listener closed (ErrShutdown), another
+    Accept error, or a connection accepted while Shutdown had started (refused, ErrShutdown) *)
+Theorem serve_leaves_only_by_accept_error : forall s l s',
+  In (l, s') (sstep_lbl scfg_repo s) -> serve_ended s = false -> serve_ended s' = true ->
+  (l = SL_ServeRet true /\ lis s = true) \/ (l = SL_AcceptErr /\ lis s = false) \/ (l = SL_Dropped /\ shut s = true).
+Proof.
+  intros s l s' Hin H0 H1. unfold sstep_lbl in Hin. destruct (s_panic s); [destruct Hin|].
+  apply in_app_or in Hin. destruct Hin as [Hin|Hin].
+  { unfold serve_steps in Hin. unfold serve_ended in H0. destruct (sv s) eqn:Esv; try discriminate H0.
+    - destruct (lis s) eqn:El; cbn in Hin.
+      + destruct Hin as [Hin|[]]. injection Hin as <- <-. left. split; reflexivity.
+      + destruct Hin as [Hin|[Hin|[Hin|[]]]]; injection Hin as <- <-; try discriminate H1. right; left; split; reflexivity.
+    - cbn [guard_add scfg_repo andb] in Hin. destruct (shut s) eqn:Es; cbn in Hin; destruct Hin as [Hin|[]]; injection Hin as <- <-.
+      + right; right; split; reflexivity.
+      + discriminate H1.
+    - destruct Hin as [Hin|[]]. injection Hin as <- <-. discriminate H1. }
+  exfalso. assert (Hsv : sv s' = sv s).
+  { apply in_app_or in Hin. destruct Hin as [Hin|Hin].
+    { unfold shutdown_steps in Hin. destruct (sd s); try destruct (wg s); try destruct (tm s); cbn in Hin;
+        repeat (destruct Hin as [Hin|Hin]; [injection Hin as <- <-; reflexivity|]); destruct Hin. }
+    apply in_app_or in Hin. destruct Hin as [Hin|Hin].
+    { unfold timer_steps in Hin. destruct (tm s); cbn in Hin;
+        repeat (destruct Hin as [Hin|Hin]; [injection Hin as <- <-; reflexivity|]); destruct Hin. }
+    destruct (conn_steps_from_In scfg_repo s _ _ _ Hin) as [k [c [l0 [c' [_ [_ [_ [_ Hs]]]]]]]].
+    cbn [snd] in Hs. rewrite Hs. destruct l0; try reflexivity. destruct (wg s); reflexivity. }
+  unfold serve_ended in *. rewrite Hsv in H1. rewrite H0 in H1. discriminate H1.
+Qed.
+
+(** * Shutdown *)
+
+(** after Shutdown returned: listener closed, server marked as shutting down, both contexts
+    cancelled, every connection goroutine (handleConn) returned, no handler in progress *)
+Theorem sd_state_at_return : forall s,
+  reachable (sstep scfg_repo) sinit s -> sd_returned s = true ->
+  lis s = true /\ shut s = true /\ g_rctx s = true /\ wg s = 0 /\
+  forall c, In c (conns s) -> h_done c = true /\ in_handler c = false.
+Proof.
+  intros s H Hr. pose proof (sinv_reachable s H) as [].
+  unfold sd_returned in Hr. destruct (sd s) eqn:Esd; try discriminate Hr. cbn [sd_rank] in *.
+  destruct v_drained0 as [D1 D2]; [lia|].
+  split; [apply v_lis0; lia|]. split; [apply v_shut0; lia|]. split; [apply v_rctx0; lia|].
+  split.
+  - rewrite v_wg0, D1. destruct (sv s); try reflexivity. contradiction (D2 tls). reflexivity.
+  - intros c Hc. assert (Hd : h_done c = true) by (apply (proj1 (live_conns_zero (conns s)) D1); exact Hc).
+    split; [exact Hd|]. destruct (v_reach0 c Hc) as [tls Hrc]. apply (conn_done_facts tls c Hrc Hd).
+Qed.
+
+(** ... and from then on no connection is accepted or started, and the accept loop can only end
+    with ErrShutdown *)
+Theorem sd_nothing_starts_after_return : forall s l s',
+  reachable (sstep scfg_repo) sinit s -> sd_returned s = true ->
+  In (l, s') (sstep_lbl scfg_repo s) ->
+  l <> SL_Spawn /\ l <> SL_AcceptErr /\ (forall t, l <> SL_Accept t) /\ l <> SL_ServeRet false /\
+  (forall i, l <> SL_Conn i LHStart) /\ (forall i, l <> SL_Conn i LHookOk).
+Proof.
+  intros s l s' H Hr Hin.
+  destruct (sd_state_at_return s H Hr) as [Hl [Hs [_ [_ Hdone]]]].
+  pose proof (sinv_reachable s H) as [].
+  unfold sd_returned in Hr. destruct (sd s) eqn:Esd; try discriminate Hr. cbn [sd_rank] in *.
+  destruct v_drained0 as [D1 D2]; [lia|].
+  unfold sstep_lbl in Hin. rewrite v_panic0 in Hin.
+  apply in_app_or in Hin. destruct Hin as [Hin|Hin].
+  { unfold serve_steps in Hin. rewrite Hl in Hin. cbn [guard_add scfg_repo andb] in Hin. rewrite Hs in Hin.
+    destruct (sv s) eqn:Esv; cbn in Hin.
+    - destruct Hin as [Hin|[]]. injection Hin as <- <-. repeat split; try discriminate; intros; discriminate.
+    - destruct Hin as [Hin|[]]. injection Hin as <- <-. repeat split; try discriminate; intros; discriminate.
+    - contradiction (D2 tls). reflexivity.
+    - destruct Hin.
+    - destruct Hin. }
+  apply in_app_or in Hin. destruct Hin as [Hin|Hin].
+  { unfold shutdown_steps in Hin. rewrite Esd in Hin. destruct Hin. }
+  apply in_app_or in Hin. destruct Hin as [Hin|Hin].
+  { unfold timer_steps in Hin. destruct (tm s); try (destruct Hin; fail).
+    destruct Hin as [Hin|[]]. injection Hin as <- <-. repeat split; try discriminate; intros; discriminate. }
+  destruct (conn_steps_from_In scfg_repo s _ _ _ Hin) as [k [c [l0 [c' [Hn [Hc [Hok [Hf Hs']]]]]]]].
+  cbn [fst plus] in Hf. subst l. cbn [conn_cfg scfg_repo] in Hc.
+  assert (Hcin : In c (conns s)) by (eapply nth_error_In; eauto).
+  destruct (Hdone c Hcin) as [Hd _]. destruct (v_reach0 c Hcin) as [tls Hrc].
+  pose proof (conn_done_no_h_label tls c l0 c' Hrc Hc Hd) as Hno.
+  repeat split; try discriminate; try (intros; discriminate).
+  - intros i E. injection E as _ ->. discriminate Hno.
+  - intros i E. injection E as _ ->. discriminate Hno.
+Qed.
+
+(** the root context (which every handler's context derives from) is cancelled only by the 3 s
+    timer or at the very end of Shutdown, when every connection has ended *)
+Theorem sd_cancel_only_by_timer_or_at_end : forall s,
+  reachable (sstep scfg_repo) sinit s -> g_root s = true ->
+  tm s = TFired \/ (sd_returned s = true /\ forall c, In c (conns s) -> h_done c = true).
+Proof.
+  intros s H Hg. destruct (v_root _ (sinv_reachable s H) Hg) as [T|R]; [left; exact T|right].
+  assert (Hr : sd_returned s = true) by (unfold sd_returned; rewrite R; reflexivity).
+  split; [exact Hr|]. intros c Hc. apply (sd_state_at_return s H Hr). exact Hc.
+Qed.
+
+(** Shutdown's recvCancel interrupts a connection only between requests: handleConn decides to tear
+    a still-live connection down only in recv's select, where it holds no request *)
+Definition interrupt_fact (c : cstate) (lc : label * cstate) : bool :=
+  let (l, c') := lc in
+  match hp c' with
+  | H_TermSwap HC_Break =>
+    match hp c with
+    | H_TermSwap HC_Break => true
+    | H_RecvSel => ctxdone c || rctx c
+    | _ => ctxdone c
+    end
+  | _ => true
+  end.
+Definition interrupt_cert : bool :=
+  forallb (fun c => forallb (interrupt_fact c) (cstep_lbl cfg_repo c)) Rset.
+Lemma interrupt_cert_ok : interrupt_cert = true.
+Proof. vm_compute. reflexivity. Qed.
+
+Theorem shutdown_interrupts_only_between_requests : forall tls c l c',
+  reachable (cstep cfg_repo) (cinit tls) c -> In (l, c') (cstep_lbl cfg_repo c) ->
+  ctxdone c = false -> hp c' = H_TermSwap HC_Break -> hp c <> H_TermSwap HC_Break ->
+  hp c = H_RecvSel /\ rctx c = true /\ a_hst (abs c) = HNone.
+Proof.
+  intros tls c l c' Hr Hin Hctx Hc' Hne. apply reachable_in_Rset in Hr.
+  pose proof interrupt_cert_ok as Hc. unfold interrupt_cert in Hc. rewrite forallb_forall in Hc.
+  specialize (Hc c Hr). rewrite forallb_forall in Hc. specialize (Hc (l, c') Hin). clear Hr.
+  unfold interrupt_fact in Hc. rewrite Hc', Hctx in Hc. cbn [orb] in Hc.
+  destruct (hp c) eqn:Ehp; try discriminate Hc; try (destruct k; try discriminate Hc; contradiction Hne; reflexivity).
+  repeat split; [exact Hc | unfold abs; cbn; rewrite Ehp; reflexivity].
+Qed.
+
+(** all per-connection goroutines end after Shutdown returned, with no further event: for each
+    connection, every run of internal steps is finite and ends with readloop, writeloop and
+    handleConn all returned *)
+Lemma istep_labelled C c t : In t (istep C c) -> exists l, In (l, t) (cstep_lbl C c) /\ is_internal c l = true.
+Proof.
+  unfold istep, istep_lbl. intros H. apply in_map_iff in H. destruct H as [[l x] [<- H]].
+  apply filter_In in H. destruct H as [H1 H2]. exists l. split; assumption.
+Qed.
+
+Theorem sd_goroutines_end : forall s c,
+  reachable (sstep scfg_repo) sinit s -> sd_returned s = true -> In c (conns s) ->
+  (exists n, forall p, path (istep cfg_repo) c p -> length p <= n) /\
+  (forall t, reachable (istep cfg_repo) c t -> istep cfg_repo t = [] -> all_done t = true).
+Proof.
+  intros s c H Hr Hc.
+  destruct (sd_state_at_return s H Hr) as [_ [_ [_ [_ Hdone]]]]. destruct (Hdone c Hc) as [Hd _].
+  destruct (server_conns_are_connections s c H Hc) as [tls Hrc].
+  split; [exists (irank c); exact (conn_internal_terminates tls c Hrc)|].
+  intros t Ht Hn.
+  assert (Hinv : reachable (cstep cfg_repo) (cinit tls) t /\ h_done t = true).
+  { clear Hn. induction Ht as [|u v Hu IH Hv]; [split; assumption|].
+    destruct IH as [Hru Hdu]. destruct (istep_labelled _ _ _ Hv) as [l [Hl Hint]].
+    split; [eapply reach_step; [exact Hru | apply istep_incl; exact Hv]|].
+    assert (Hok : conn_label_ok l = true) by (destruct l; try reflexivity; discriminate Hint).
+    destruct (conn_step_facts tls u l v Hru Hl Hok) as [_ [_ [F3 F4]]].
+    destruct (label_eq_dec l LWgDone) as [->|Hne]; [destruct (F3 eq_refl) as [_ D]; exact D|].
+    rewrite (F4 Hne). exact Hdu. }
+  destruct Hinv as [Hrt Hdt]. apply (conn_done_facts tls t Hrt Hdt). exact Hn.
+Qed.
+
+(** * Without the registration guard (Serve as in the pinned tree) the property fails:
+    a connection accepted just before Shutdown is started after Shutdown returned *)
+Fixpoint follow (C : scfg) (choices : list nat) (s : sstate) : option sstate :=
+  match choices with
+  | [] => Some s
+  | n :: rest => match nth_error (sstep C s) n with Some t => follow C rest t | None => None end
+  end.
+Lemma follow_reachable C : forall choices s t, follow C choices s = Some t -> reachable (sstep C) s t.
+Proof.
+  induction choices as [|n rest IH]; intros s t H; cbn in H.
+  - injection H as <-. apply reach_init.
+  - destruct (nth_error (sstep C s) n) as [u|] eqn:E; [|discriminate H].
+    eapply reachable_trans; [|apply IH; exact H].
+    eapply reach_step; [apply reach_init | eapply nth_error_In; exact E].
+Qed.
+
+Definition late_start_witness : option sstate :=
+  Eval vm_compute in follow scfg_unguarded [1; 1; 1; 1; 1; 1; 1; 1; 0; 0] sinit.
+
+Theorem unguarded_serve_starts_connection_after_shutdown_returned :
+  exists s, reachable (sstep scfg_unguarded) sinit s /\ sd_returned s = true /\
+            exists c, In c (conns s) /\ h_done c = false /\ root c = true.
+Proof.
+  destruct late_start_witness as [s|] eqn:E; [|discriminate E].
+  exists s. split; [apply (follow_reachable scfg_unguarded [1; 1; 1; 1; 1; 1; 1; 1; 0; 0]); exact E|].
+  injection E as <-. split; [reflexivity|]. eexists. split; [left; reflexivity|]. split; reflexivity.
 Qed.
